@@ -1,6 +1,7 @@
 package main
 
 import (
+	"regexp"
 	"encoding/json"
 	"flag"
 	"fmt"
@@ -318,9 +319,13 @@ func cmdCheck(writeBaseline bool, argv []string) int {
 				missingFK[funcKindOf(id)] = true
 			}
 		}
+		gateStem := map[string]bool{}
+		for _, id := range bl0.Obligations {
+			gateStem[idStem(id)] = true
+		}
 		toSolve = nil
 		for _, o := range obls {
-			if want[o.ID] || missingFK[o.Func+"#"+o.Kind] {
+			if want[o.ID] || missingFK[o.Func+"#"+o.Kind] || ((o.Kind == "reach" || o.Kind == "send") && gateStem[idStem(o.ID)]) {
 				toSolve = append(toSolve, o)
 			}
 		}
@@ -506,6 +511,10 @@ func cmdCheck(writeBaseline bool, argv []string) int {
 		}
 		if len(missingByFuncKind[fk]) > 0 {
 			viols = append(viols, viol{o, o.ID, o.Status + " (replaces baseline obligation " + missingByFuncKind[fk][0] + ")"})
+		} else if (o.Kind == "reach" || o.Kind == "send") && inBL[idStem(o.ID)] {
+			// a gate clause that is claimed applies to every statement it matches:
+			// a new matching statement is a new instance of the claimed clause
+			viols = append(viols, viol{o, o.ID, o.Status + " (new statement matched by the claimed gate " + idStem(o.ID) + ")"})
 		} else if _, isKnown := known[o.ID]; isKnown {
 			viols = append(viols, viol{o, o.ID, o.Status})
 		} else if watched[o.ID] {
@@ -754,3 +763,8 @@ func (w *World) assumptionList(results []*FuncResult) (assumptions []string, tru
 	}
 	return
 }
+
+var idOrdinalRE = regexp.MustCompile(`#\d+$`)
+
+// idStem strips the instance ordinal from an obligation id.
+func idStem(id string) string { return idOrdinalRE.ReplaceAllString(id, "") }
